@@ -66,6 +66,12 @@ func (a iv) join(b iv) iv {
 	if a.kind == 0 {
 		return b
 	}
+	if b.kind == 0 {
+		return a
+	}
+	if a.kind == 'o' || b.kind == 'o' || a.kind != b.kind {
+		return iv{kind: 'o'}
+	}
 	switch a.kind {
 	case 'i':
 		lo, hi := a.ilo, a.ihi
@@ -132,6 +138,12 @@ func typeBits(t types.Type) (bits int, signed bool, ok bool) {
 		return 8, false, true
 	}
 	return 0, false, false
+}
+
+// numericOrBool: values of this type are computed with (anything else is only carried).
+func numericOrBool(t types.Type) bool {
+	b, ok := t.Underlying().(*types.Basic)
+	return ok && b.Info()&(types.IsNumeric|types.IsBoolean) != 0
 }
 
 func typeRange(t types.Type) (lo, hi *big.Int, ok bool) {
@@ -244,9 +256,22 @@ func (it *interp) evalFunc(fn *ssa.Function, args []iv) (iv, error) {
 		if c, ok := v.(*ssa.Const); ok {
 			x, ok := it.constIV(c)
 			if !ok {
+				if !numericOrBool(c.Type()) {
+					return iv{kind: 'o'}, nil // a string, nil: carried, never computed with
+				}
 				return iv{}, fmt.Errorf("unsupported constant %s", c)
 			}
 			return x, nil
+		}
+		if _, ok := vals[v]; !ok {
+			if !numericOrBool(v.Type()) {
+				return iv{kind: 'o'}, nil
+			}
+			if b, isB := v.Type().Underlying().(*types.Basic); isB && b.Info()&types.IsBoolean != 0 {
+				if _, isX := v.(*ssa.Extract); isX {
+					return iv{kind: 'b', bt: true, bf: true}, nil // the ok of a comma-ok form
+				}
+			}
 		}
 		if x, ok := vals[v]; ok {
 			if x.kind == 'i' {
@@ -363,6 +388,15 @@ func (it *interp) evalFunc(fn *ssa.Function, args []iv) (iv, error) {
 					return iv{}, err
 				}
 				vals[x] = a
+			case *ssa.Extract:
+				// one result of a call outside the module (time.ParseDuration): any value of its type
+				if call, isCall := x.Tuple.(*ssa.Call); isCall {
+					if f := StaticFunc(call.Common()); f == nil || !it.p.IsModFunc(f) {
+						if lo, hi, isInt := typeRange(x.Type()); isInt {
+							vals[x] = ivInt(lo, hi)
+						}
+					}
+				}
 			case *ssa.Convert:
 				a, err := get(x.X)
 				if err != nil {
@@ -458,6 +492,9 @@ func (it *interp) evalFunc(fn *ssa.Function, args []iv) (iv, error) {
 					}
 					var as []iv
 					for _, av := range PArgs(&x.Call) {
+						if av == nil {
+							continue
+						}
 						a, err := get(av)
 						if err != nil {
 							return iv{}, err
@@ -587,9 +624,15 @@ func (it *interp) evalValue(v ssa.Value, depth int) (iv, error) {
 			if f := StaticFunc(x.Common()); f != nil && it.p.IsModFunc(f) {
 				var as []iv
 				for _, av := range PArgs(&x.Call) {
+					if av == nil {
+						continue
+					}
 					a, err := it.evalValue(av, depth+1)
 					if err != nil {
-						return iv{}, err
+						if numericOrBool(av.Type()) {
+							return iv{}, err
+						}
+						a = iv{kind: 'o'}
 					}
 					as = append(as, a)
 				}
@@ -619,6 +662,12 @@ func (it *interp) evalValue(v ssa.Value, depth int) (iv, error) {
 		case *ssa.UnOp:
 			if g, ok := x.X.(*ssa.Global); ok && x.Op == token.MUL {
 				if gv, ok := it.globals[GlobalName(g)]; ok {
+					return gv, nil
+				}
+				// a package-level number of the module: the join of everything ever stored to it
+				// (its initialiser, a validated setter called at start-up), each value as the
+				// comparisons above its store leave it
+				if gv, ok := it.evalGlobalStores(g, depth); ok {
 					return gv, nil
 				}
 			}
@@ -736,6 +785,13 @@ func abs64(x int64) int64 {
 }
 
 func (it *interp) binop(x *ssa.BinOp, a, b iv) (iv, error) {
+	if a.kind == 'o' || b.kind == 'o' {
+		switch x.Op {
+		case token.EQL, token.NEQ, token.LSS, token.LEQ, token.GTR, token.GEQ:
+			return iv{kind: 'b', bt: true, bf: true}, nil
+		}
+		return iv{kind: 'o'}, nil
+	}
 	switch x.Op {
 	case token.EQL, token.NEQ, token.LSS, token.LEQ, token.GTR, token.GEQ:
 		// compare intervals
@@ -1598,6 +1654,88 @@ func c08ErrorClassification(c *Ctx, p *Prog) {
 
 // refineEdge narrows the interval a of value e on the control-flow edge
 // pred→blk when pred ends in `if e <op> c` (or `c <op> e`) with c evaluable.
+// evalGlobalStores: the interval of a package-level integer variable of the module whose
+// address is never taken: the join of the values of all its stores (zero when the package
+// initialiser stores nothing), each refined by the comparisons that dominate the store.
+func (it *interp) evalGlobalStores(g *ssa.Global, depth int) (iv, bool) {
+	if g.Pkg == nil {
+		return iv{}, false
+	}
+	if _, isMod := it.p.ModPkgs[g.Pkg.Pkg.Path()]; !isMod {
+		return iv{}, false
+	}
+	if _, _, ok := typeRange(g.Type().(*types.Pointer).Elem()); !ok {
+		return iv{}, false
+	}
+	var stores []*ssa.Store
+	escapes, inInit := false, false
+	for _, fn := range it.p.AllFuncs {
+		EachInstrRaw(fn, func(i ssa.Instruction) {
+			for _, op := range i.Operands(nil) {
+				if *op != ssa.Value(g) {
+					continue
+				}
+				switch x := i.(type) {
+				case *ssa.Store:
+					if x.Addr == ssa.Value(g) && x.Val != ssa.Value(g) {
+						stores = append(stores, x)
+						if fn.Name() == "init" && fn.Pkg == g.Pkg {
+							inInit = true
+						}
+						continue
+					}
+					escapes = true
+				case *ssa.UnOp:
+					if x.Op != token.MUL {
+						escapes = true
+					}
+				default:
+					escapes = true
+				}
+			}
+		})
+	}
+	if escapes {
+		return iv{}, false
+	}
+	var acc iv
+	if !inInit {
+		acc = ivI64(0, 0)
+	}
+	for _, st := range stores {
+		a, err := it.evalValue(st.Val, depth+1)
+		if err != nil || a.kind != 'i' {
+			return iv{}, false
+		}
+		a = it.refineAt(a, st.Val, st.Block())
+		acc = acc.join(a)
+	}
+	return acc, acc.kind == 'i'
+}
+
+// refineAt: a, the interval of e, as the comparisons of e that dominate blk with one outcome leave it.
+func (it *interp) refineAt(a iv, e ssa.Value, blk *ssa.BasicBlock) iv {
+	for d := blk.Idom(); d != nil; d = d.Idom() {
+		if len(d.Succs) != 2 || d.Succs[0] == d.Succs[1] {
+			continue
+		}
+		var via *ssa.BasicBlock
+		for _, s := range d.Succs {
+			if s == blk || s.Dominates(blk) {
+				if via != nil {
+					via = nil
+					break
+				}
+				via = s
+			}
+		}
+		if via != nil && len(via.Preds) == 1 {
+			a = it.refineEdge(a, e, d, via, 3)
+		}
+	}
+	return a
+}
+
 func (it *interp) refineEdge(a iv, e ssa.Value, pred, blk *ssa.BasicBlock, depth int) iv {
 	// comparisons of e further up that every path to this edge has passed with one outcome
 	// (if v < 0 || v >= n { … }: the second test's edge also knows the first one failed)
